@@ -147,9 +147,13 @@ MJChecks(q, s) ==
        Chk("builder",    s.tb \in {"ok", "nocreate"},            "internal"),
        Chk("auth",       JoinAuth(s.ver, StateOf(s), via),       "M_FORBIDDEN") >>
 
+\* auth: what the event's own auth_events cover: "full" create and A's membership, "base" create only, "nocreate"
+AuthOf(via) == IF via = "local" THEN "full" ELSE "base"
+
 Template(q, s, mship) ==
+    LET via == IF mship = "join" /\ RestrictedVia(s) = "A" THEN "local" ELSE "none" IN
     [type |-> "member", room |-> q.room, ssrv |-> q.usrv, skey |-> "sender", mship |-> mship,
-     via |-> IF mship = "join" /\ RestrictedVia(s) = "A" THEN "local" ELSE "none", auth |-> "good"]
+     via |-> via, auth |-> AuthOf(via)]
 
 \* --- make_leave ---------------------------------------------------------
 MLChecks(q, s) ==
@@ -208,12 +212,25 @@ RespState(m, s) ==
      mem    |-> IF m.ban = "yes" THEN "ban" ELSE s.mem,
      aHere  |-> s.aHere, aOK |-> APowerOK(s)]
 
-PJChecks(m, e, s) ==
+\* what the join event's own auth events amount to (looked up by ID among the events of the response that survived)
+AuthEvState(m, e, s) ==
+    [create |-> e.auth # "nocreate" /\ m.create = "ok",
+     jr     |-> IF m.jrsig = "bad" THEN "none" ELSE s.jr,
+     mem    |-> s.mem,
+     aHere  |-> s.aHere /\ e.auth = "full", aOK |-> APowerOK(s)]
+
+\* J adopts the join event of the response if it looks like its own join (it may carry more signatures)
+WellFormedRet(e) == e.type # "none" /\ e.mship = "join" /\ e.room = "main" /\ e.skey = "sender" /\ e.ssrv = "J"
+Adopted(m, e) == IF m.jret = "signed" /\ WellFormedRet(m.ev) THEN m.ev ELSE e
+ViaOf(e) == IF e.via = "local" THEN "A" ELSE e.via
+
+PJChecks(m, e0, s) ==
+    LET e == Adopted(m, e0) IN
     << Chk("accepted", m.res = "ok",                                "remote"),
        Chk("create",   m.create \in {"ok", "badsig"},               "nocreate"),     \* present, known version
        Chk("shape",    m.st = "ok",                                 "state"),
-       Chk("authev",   e.auth = "good" /\ m.create = "ok",          "auth"),         \* allowed by its auth events
-       Chk("auth",     JoinAuth(s.ver, RespState(m, s), IF e.via = "local" THEN "A" ELSE e.via), "auth") >>
+       Chk("authev",   e.type = "member" /\ JoinAuth(s.ver, AuthEvState(m, e, s), ViaOf(e)), "auth"),  \* allowed by its auth events
+       Chk("auth",     e.type = "member" /\ JoinAuth(s.ver, RespState(m, s), ViaOf(e)),      "auth") >>
 
 (***************************************************************************)
 (* Scenario sets                                                           *)
@@ -331,7 +348,7 @@ InviteReq ==
     /\ flow = "invite" /\ phase = "start"
     /\ net' = [k |-> "invreq", room |-> "main",
                ev |-> [type |-> "member", mship |-> "invite", ssrv |-> "J", skey |-> "invitee", room |-> "main",
-                       via |-> "none", sig |-> "valid", auth |-> "good"]]
+                       via |-> "none", sig |-> "valid", auth |-> "base"]]
     /\ phase' = "invreq"
     /\ Log([a |-> "InviteReq", msg |-> net'])
     /\ UNCHANGED <<sc, flow, jev, nforge, pj>>
@@ -377,7 +394,7 @@ SetEv(e, f, v) ==
 ForgeEv(m, f, v, resign) ==
     LET e1 == SetEv(m.ev, f, v)
         e2 == IF f = "e_sig" THEN e1
-              ELSE IF resign THEN [e1 EXCEPT !.sig = "valid"]
+              ELSE IF resign THEN [e1 EXCEPT !.sig = "valid", !.auth = IF @ = "nocreate" THEN @ ELSE AuthOf(e1.via)]
               ELSE [e1 EXCEPT !.sig = "tampered"]
     IN  IF m.k = "sjreq"
         \* the request names the event by ID: an ID computed from the content no longer matches a tampered event
@@ -392,7 +409,7 @@ ApplyForge(m, f, v, resign) ==
       [] f = "room"   -> [m EXCEPT !.room = v]
       [] f = "eid"    -> [m EXCEPT !.eid = v]
       [] f = "res"    -> [m EXCEPT !.res = v, !.tmpl = [type |-> "member", room |-> "main", ssrv |-> "J", skey |-> "sender",
-                                                       mship |-> "join", via |-> "none", auth |-> "good"]]
+                                                       mship |-> "join", via |-> "none", auth |-> "base"]]
       [] f = "ver"    -> [m EXCEPT !.ver = v]
       [] f = "t_type" -> [m EXCEPT !.tmpl.type = v]
       [] f = "t_mship" -> [m EXCEPT !.tmpl.mship = v]
@@ -431,7 +448,13 @@ ForgeGuard(f, v, resign) ==
     /\ v \in ForgeTable[net.k][f]
     /\ resign \in ResignChoices(f)
     /\ Forgeable(net, f)
+    \* content keys are covered by the signatures of membership events only
+    /\ (f \in {"e_mship", "e_via"} /\ ~resign) => net.ev.type = "member"
     /\ CurrentValue(net, f) # v
+    \* a make_join rewritten into a consistent request of another server for its own user is that server's handshake,
+    \* not J's (the template would cite the other user's membership): covered by the guard products, excluded here
+    /\ (net.k = "mjreq" /\ f \in {"origin", "usrv"}) =>
+          LET m2 == ApplyForge(net, f, v, FALSE) IN ~(m2.origin = m2.usrv /\ m2.usrv # "J")
     \* one forgery per field of a message
     /\ \A i \in DOMAIN hist : hist[i].a = "Forge" => ~(hist[i].at = net.k /\ hist[i].f = f)
 
@@ -514,10 +537,14 @@ ReturnsCountersigned ==
 
 \* 3. PerformJoin returns a join only if the remote's state passes the federation-response checks and
 \*    contains a create event of a known room version
-FedChecksPass(m, e, s) ==
+\*    (the join event J ends up with - the one of the response if it is J's join, else the one J sent - is allowed
+\*    both by its own auth events and by the returned state, among the events that survive the signature checks)
+FedChecksPass(m, e0, s) ==
+    LET e == Adopted(m, e0) IN
     /\ m.st = "ok"
-    /\ e.auth = "good" /\ m.create = "ok"
-    /\ JoinAuth(s.ver, RespState(m, s), IF e.via = "local" THEN "A" ELSE e.via)
+    /\ e.type = "member"
+    /\ JoinAuth(s.ver, AuthEvState(m, e, s), ViaOf(e))
+    /\ JoinAuth(s.ver, RespState(m, s), ViaOf(e))
 
 PerformJoinExact ==
     /\ pj = "ok" <=> \E i \in Entries("JoinDone") : hist[i].res = "ok"
